@@ -170,7 +170,8 @@ def random_pulse(rng, k, n_dt=None, dt=None):
 def random_mapping(rng, names, mode=None, names_c=None, names_n=None):
     """`clash` sends everything to two names; `clash_c` / `clash_n` make exactly two CONTROL / two
     NOISE identifiers coincide and keep all others apart (fresh names); `clash_missing` does both a
-    collision and a missing key (the `KeyError` comes first)"""
+    collision and a missing key (the missing key is raised first: `KeyError` before the repair F50,
+    `ValueError` since)"""
     names = list(dict.fromkeys(names))
     mode = mode or rng.choice(['none', 'perm', 'pool', 'clash', 'missing', 'identity', 'clash_c',
                                'clash_n', 'clash_missing'],
@@ -241,8 +242,8 @@ def mapids_cases(rng, n):
         try:
             r, s = ps._map_identifiers(np.array(ids, dtype=str) if k else np.array([], dtype=str), m)
             ref = 'ok ' + ('_' if k == 0 else ','.join(str(x) for x in r)) + '/' + nats(s)
-        except KeyError:
-            ref = 'err KeyError'
+        except (KeyError, ValueError) as e:      # ValueError since the repair F50
+            ref = 'err ' + type(e).__name__
         reqs.append(f'mapids {"_" if k == 0 else ",".join(ids)} {dict_s(m)}')
         refs.append(ref)
     return reqs, refs
@@ -546,9 +547,9 @@ def special_extend_cases():
     out.append(([E(p1, i1, a1, [0], 'b'), E(p1, i1, a1, [1], 'b')], None,
                 [(9001, 'W', [1, 2], 2)], False))                               # wrong dimension
     out.append(([E(p1, i1, a1, [0], 'b')], None, [(9001, 'W', [1, 2], 2)], True))   # shortcut drops it
-    out.append(([E(p1, i1, a1, [0], 'b', {})], 2, None, True))                  # KeyError
+    out.append(([E(p1, i1, a1, [0], 'b', {})], 2, None, True))                  # missing key
     out.append(([E(p1, i1, a1, [0], 'b', {}), E(pd, idd, ad, [1], 'b')], None, None, True))  # ValueError first
-    out.append(([E(p1, i1, a1, [0], 'b', {})], 2, [(9001, 'W', [1, 2, 3], 4)], True))  # KeyError first
+    out.append(([E(p1, i1, a1, [0], 'b', {})], 2, [(9001, 'W', [1, 2, 3], 4)], True))  # missing key first
     # identifiers that coincide after the mapping (repaired: ValueError)
     c0, n0 = a1[0][0][1], a1[1][0][1]
     inj = lambda a, pre: {t[1]: pre + t[1] for t in a[0] + a[1]}  # noqa
@@ -562,7 +563,7 @@ def special_extend_cases():
                  E(p1, i1, a1, [1], 'b', {**inj(a1, 'v'), n0: 'SAME'})], None, None, True))  # multi + single
     mk = dict(mc1)
     del mk[n0]
-    out.append(([E(p1, i1, a1, [0], 'b', mc0), E(p1, i1, a1, [1], 'b', mk)], None, None, True))   # KeyError first
+    out.append(([E(p1, i1, a1, [0], 'b', mc0), E(p1, i1, a1, [1], 'b', mk)], None, None, True))   # missing key first
     out.append(([E(p1, i1, a1, [0], 'b', mc0), E(p1, i1, a1, [1], 'b', mc1)], None,
                 [(9001, 'W', [1, 2, 3], 4)], True))                     # before the additional checks
     out.append(([E(p1, i1, a1, [0], 'b', mc0), E(p1, i1, a1, [0], 'b', mc1)], None, None, True))  # qubit clash first
@@ -631,7 +632,7 @@ def main():
     n_rc = sum(1 for c in rc if c[7] == 'ValueError')
     n_ec = sum(1 for c, (req, real) in zip(ec, ec_rr)
                if real[1] == 'ValueError' and real[2] is None and 'SAME' in req)
-    print(f'(info) remap calls rejected for colliding identifiers: {n_rc}; '
+    print(f'(info) remap calls rejected with ValueError (missing key or colliding identifiers): {n_rc}; '
           f'extend calls with a planted collision that raised ValueError: {n_ec}')
     bad = 0
     for name in sorted(st.dev):
